@@ -731,6 +731,77 @@ func init() {
 		wrapperSite(mod, so, "SliceIsSorted", "sortSliceIsSortedW", "{S T R : Type} (sortSliceIsSorted : S → (S → Int → Int → Bool) → R) (elemAt : S → Int → T) (x : S) (less : T → T → Bool) : R",
 			map[string]string{"x": "x", "less": "less", "x[i]": "(elemAt cur i)", "x[j]": "(elemAt cur j)"}, map[string]string{"sort.SliceIsSorted": "sortSliceIsSorted"}, "cur"),
 	)
+	// MergeSlices: `out = xslices.Grow(out[:0], n)` decides whether the caller's buffer is re-used
+	register(
+		sliceBound(mod, so, "MergeSlices", "msGrowHi", "out", 0, "hi", nil, nil, ""),
+		ex(so, "MergeSlices", "msGrowN", "call[xslices.Grow][0].arg[1]", "Int", I("n"), id("n")),
+		ex(so, "MergeSlices", "msN0", "assign[n][0].rhs", "Int", nil, nil),
+		body(so, "MergeSlices", "msSumBody", "range[0].body"),
+	)
+	// ------------------------------------------------------------------ xmaps: guards and flags of the loops
+	const xm = "xmaps"
+	register(
+		ex(xm, "ReverseSingle", "rsOk0", "assign[allOk][0].rhs", "Bool", nil, nil),
+		ex(xm, "ReverseSingle", "rsDup", "range[0].body/if[0].cond", "Bool", B("ok"), id("ok")),
+		ex(xm, "ReverseSingle", "rsDupVal", "range[0].body/if[0].body/assign[allOk][0].rhs", "Bool", nil, nil),
+		body(xm, "ReverseSingle", "rsBody", "range[0].body"),
+		body(xm, "Reverse", "mapRevBody", "range[0].body"),
+		body(xm, "ToIndex", "toIndexBody", "range[0].body"),
+		ex(xm, "FromKeysAndValues", "fkvPanics", "if[0].cond", "Bool", I("klen", "vlen"), map[string]string{"len(keys)": "klen", "len(values)": "vlen"}),
+		ex(xm, "FromKeysAndValues", "fkvOk0", "assign[allOk][0].rhs", "Bool", nil, nil),
+		ex(xm, "FromKeysAndValues", "fkvDup", "range[0].body/if[0].cond", "Bool", B("ok"), id("ok")),
+		ex(xm, "FromKeysAndValues", "fkvDupVal", "range[0].body/if[0].body/assign[allOk][0].rhs", "Bool", nil, nil),
+		body(xm, "FromKeysAndValues", "fkvBody", "range[0].body"),
+		body(xm, "Union", "unionBody", "range[1].body"),
+		ex(xm, "Intersection", "interEmpty", "if[0].cond", "Bool", I("n"), map[string]string{"len(sets)": "n"}),
+		ex(xm, "Intersection", "interJ0", "assign[j][0].rhs", "Int", nil, nil),
+		ex(xm, "Intersection", "interLoop", "range[0].body/for[0].cond", "Bool", I("j", "n"), map[string]string{"j": "j", "len(sets)": "n"}),
+		count(xm, "Intersection", "interIncs", "range[0].body/for[0].post", "j++"),
+		ex(xm, "Intersection", "interInclude0", "range[0].body/assign[include][0].rhs", "Bool", nil, nil),
+		ex(xm, "Intersection", "interMiss", "range[0].body/for[0].body/if[0].cond", "Bool", B("ok"), id("ok")),
+		ex(xm, "Intersection", "interMissVal", "range[0].body/for[0].body/if[0].body/assign[include][0].rhs", "Bool", nil, nil),
+		present(xm, "Intersection", "interMissBreaks", "range[0].body/for[0].body/if[0].body", "break"),
+		ex(xm, "Intersection", "interStores", "range[0].body/if[1].cond", "Bool", B("incl"), map[string]string{"include": "incl"}),
+		present(xm, "Intersection", "interSortsBySize", "", "xsort.Slice(sets, func(a, b S) bool { return len(a) < len(b) })"),
+		ex(xm, "Intersects", "intsEmpty", "if[0].cond", "Bool", I("n"), map[string]string{"len(sets)": "n"}),
+		ex(xm, "Intersects", "intsEmptyRet", "if[0].body/return[0].result[0]", "Bool", nil, nil),
+		ex(xm, "Intersects", "intsJ0", "assign[j][0].rhs", "Int", nil, nil),
+		ex(xm, "Intersects", "intsLoop", "range[0].body/for[0].cond", "Bool", I("j", "n"), map[string]string{"j": "j", "len(sets)": "n"}),
+		count(xm, "Intersects", "intsIncs", "range[0].body/for[0].post", "j++"),
+		ex(xm, "Intersects", "intsInclude0", "range[0].body/assign[include][0].rhs", "Bool", nil, nil),
+		ex(xm, "Intersects", "intsMiss", "range[0].body/for[0].body/if[0].cond", "Bool", B("ok"), id("ok")),
+		ex(xm, "Intersects", "intsMissVal", "range[0].body/for[0].body/if[0].body/assign[include][0].rhs", "Bool", nil, nil),
+		present(xm, "Intersects", "intsMissBreaks", "range[0].body/for[0].body/if[0].body", "break"),
+		ex(xm, "Intersects", "intsHit", "range[0].body/if[1].cond", "Bool", B("incl"), map[string]string{"include": "incl"}),
+		ex(xm, "Intersects", "intsHitRet", "range[0].body/if[1].body/return[0].result[0]", "Bool", nil, nil),
+		ex(xm, "Intersects", "intsEndRet", "return[2].result[0]", "Bool", nil, nil),
+		present(xm, "Intersects", "intsSortsBySize", "", "xsort.Slice(sets, func(a, b S) bool { return len(a) < len(b) })"),
+		ex(xm, "Difference", "diffKeeps", "range[0].body/if[0].cond", "Bool", B("ok"), id("ok")),
+		body(xm, "Difference", "diffBody", "range[0].body"),
+	)
+	// ------------------------------------------------------------------ statement shapes
+	// The flattened statement list of every helper whose loop structure is mirrored by hand in
+	// Model/Helpers*.lean. Proofs/HelpersShapes.lean pins each list (`shape_<helper>`, by rfl): when a
+	// statement of such a helper is added, dropped, moved or edited, that theorem stops checking, so
+	// the hand-written shape cannot drift from the source unnoticed.
+	for _, sh := range [][3]string{
+		{xs, "All", "shapeAll"}, {xs, "Chunk", "shapeChunk"}, {xs, "CountFunc", "shapeCountFunc"}, {xs, "Fill", "shapeFill"},
+		{xs, "Group", "shapeGroup"}, {xs, "Join", "shapeJoin"}, {xs, "LastIndex", "shapeLastIndex"}, {xs, "LastIndexFunc", "shapeLastIndexFunc"},
+		{xs, "Map", "shapeMap"}, {xs, "Partition", "shapePartition"}, {xs, "Reduce", "shapeReduce"}, {xs, "RemoveUnordered", "shapeRemoveUnordered"},
+		{xs, "Repeat", "shapeRepeat"}, {xs, "Reverse", "shapeReverse"}, {xs, "Runs", "shapeRuns"}, {xs, "Shrink", "shapeShrink"},
+		{xs, "Unique", "shapeUnique"}, {xs, "UniqueInPlace", "shapeUniqueInPlace"}, {xs, "uniqueInto", "shapeUniqueInto"},
+		{so, "Search", "shapeSearch"}, {so, "mergeIterator.Next", "shapeMergeNext"}, {so, "Merge", "shapeMerge"}, {so, "MergeSlices", "shapeMergeSlices"},
+		{so, "MinK", "shapeMinK"},
+		{xm, "Reverse", "shapeMapReverse"}, {xm, "ReverseSingle", "shapeReverseSingle"}, {xm, "ToIndex", "shapeToIndex"},
+		{xm, "FromKeysAndValues", "shapeFromKeysAndValues"}, {xm, "SetFromSlice", "shapeSetFromSlice"}, {xm, "Union", "shapeUnion"},
+		{xm, "Intersection", "shapeIntersection"}, {xm, "Intersects", "shapeIntersects"}, {xm, "Difference", "shapeDifference"},
+		{"xerrors", "WithStack", "shapeWithStack"}, {"xerrors", "withStack.Unwrap", "shapeUnwrap"},
+		{"xmath/xrand", "rShuffle", "shapeRShuffle"}, {"xmath/xrand", "rSample", "shapeRSample"}, {"xmath/xrand", "rSampleSlice", "shapeRSampleSlice"},
+		{"xmath/xrand", "rSampleIterator", "shapeRSampleIterator"}, {"xmath/xrand", "rSampleStream", "shapeRSampleStream"},
+		{"xmath/xrand", "sampler.Next", "shapeSamplerNext"}, {"xmath/xrand", "newSampler", "shapeNewSampler"},
+	} {
+		register(stmts(sh[0], sh[1], sh[2]))
+	}
 	// ------------------------------------------------------------------ xmaps.Set, xmath.Min / Max
 	register(
 		stmts("xmaps", "Set.Add", "setAddBody"),
